@@ -96,10 +96,29 @@ def _safe_repr(ctx, obj, where, detail):
     return r, False
 
 
+def _canary(ctx, setting):
+    """after any repr the preview limit in force is still the one that was set: a 50-element vector and a 50-row table are
+    elided (or, for limits >= 50, shown in full) exactly as the setting says"""
+    h = _h(setting)
+    for what, obj in (("vector", S.Vector(list(range(100, 150)))), ("table", S.Table({"c": list(range(100, 150))}))):
+        try:
+            text = repr(obj)
+        except Exception as e:  # noqa: BLE001
+            return ctx.fail(f"totality/canary-{what}/raised/{type(e).__name__}", str(e))
+        shown = sum(1 for ln in text.splitlines() if re.search(r"\b1[0-4][0-9]\b", ln))
+        want = 50 if 50 <= 2 * h else 2 * h
+        if shown != want:
+            return ctx.fail(f"preview/limit-not-in-force-after-an-earlier-repr/{what}",
+                            f"set_repr_rows({setting!r}): a 50-element {what} shows {shown} data lines, the limit says {want}")
+    return False
+
+
 def run_totality(case, ctx):
     try:
         S.set_repr_rows(case["setting"])
-        _totality(case, ctx)
+        if _totality(case, ctx):
+            return
+        _canary(ctx, case["setting"])
     finally:
         S.set_repr_rows(None)
 
@@ -114,7 +133,8 @@ def _totality(case, ctx):
         vals = case["vals"]
         if vals and all(isinstance(x, S.Vector) for x in vals):
             return
-        v = S.Vector(list(vals), name=case["name"], as_row=case["as_row"])
+        v = S.Vector(list(vals), name=case["name"], as_row=case["as_row"]) if (case["as_row"] or not isinstance(case["name"], str)) \
+            else B.vector(vals, name=case["name"])
         snap = ([freeze(x) for x in v], v.name, v.schema())
         fp = v.fingerprint()
         ctx.ev()
